@@ -92,6 +92,7 @@ func (o *MergeAndSortRulesOptimizer) Optimize(rules []*config_parser.RoutingRule
 			len(rules[i].AndFunctions) == 1 &&
 			mergingRule.AndFunctions[0].Name == rules[i].AndFunctions[0].Name &&
 			mergingRule.AndFunctions[0].Not == rules[i].AndFunctions[0].Not &&
+			!mergingRule.AndFunctions[0].Not && // !f(A) -> X; !f(B) -> X is NOT !f(A,B) -> X (that would be "neither A nor B")
 			rules[i].Outbound.String(true, false, true) == mergingRule.Outbound.String(true, false, true) {
 			mergingRule.AndFunctions[0].Params = append(mergingRule.AndFunctions[0].Params, rules[i].AndFunctions[0].Params...)
 		} else {
